@@ -1,5 +1,4 @@
 import MV.Lemmas.ActorSysTurns
-import MV.Lemmas.ActorSysLocal
 import MV.Spec.ActorSys
 /-!
 # C06 — parent and watchers learn of a termination exactly once
